@@ -407,7 +407,7 @@ Init ==
   /\ cnt = [env |-> 0, faults |-> 0, cmds |-> 0]
   /\ hist = << >>
 
-Sels == {{}} \cup {{t} : t \in T} \cup {T}
+Sels == {{}} \cup {{a, b} : a, b \in T} \cup {T}   \* none given, one or two names, every name
 On(a) == a \in Allow
 (* generation shaping: with "QuietRuns" runs and status queries happen only between drains *)
 QuietIfAsked == On("QuietRuns") => LiveTargets = {}
